@@ -20,6 +20,8 @@
 #
 #############################################################################
 
+import datetime
+
 from dashlive.utils.date_time import from_isodatetime
 from dashlive.utils.objects import flatten
 
@@ -38,6 +40,8 @@ def _errors_from_string(value: str) -> list[tuple[int, str]]:
             pos = from_isodatetime(pos)
         if pos is None:
             raise ValueError(f'HTTP error position missing: "{val}"')
+        if isinstance(pos, datetime.timedelta):
+            raise ValueError(f'HTTP error position must be a number or a time: "{val}"')
         items.append((int(code, 10), pos))
     return items
 
